@@ -83,7 +83,7 @@ def _step_table(ctx, kind, with_min):
             r.fields['offset'] = T('sym', 'win_offset')
         interp.call(interp.get_attr(insp, 'new_region'), [K('r'), r])
         r.fields['data'] = DATA
-        insp.fields['_total_count'] = POS
+        insp.fields[M.private_names(world)['position']] = POS
         holder['r'], holder['insp'] = r, insp
         interp.effects[:] = []
         interp.call(interp.get_attr(insp, 'eat_chunk'), [CHUNK])
@@ -92,7 +92,8 @@ def _step_table(ctx, kind, with_min):
     def capture(interp):
         r, insp = holder['r'], holder['insp']
         out = {'data': r.fields.get('data'),
-               'pos': insp.fields.get('_total_count'),
+               'pos': insp.fields.get(
+                   M.private_names(world)['position']),
                'offset': r.fields.get('offset')}
         try:
             out['complete'] = interp.get_attr(r, 'complete')
